@@ -18,16 +18,16 @@ int main(void)
   VF_ASSERT(vf_sess_next_send(SESS) == n0 && vf_sess_next_recv(SESS) == r0, "C16: the recovered control record becomes the session's numbers (1,1 when there is none)");
   world_msg(0, K_LOGOUT);                       /* an administrative message, as the Logon of start() */
   uint8_t ok = vf_sb_send_p(&the_sess, MSGP(0), 1, 0, 0) & 1;
-  VF_ASSERT(!__vf_exc_pending && ok, "C16: first send succeeds"); __vf_exc_pending = 0;
+  VF_ASSERT(!__vf_exc_pending, "C16: first send does not throw"); __vf_exc_pending = 0;
   VF_ASSERT(e_n == 1 && e_has34[0] && e_v34[0] == n0, "C16: the first message after a restart carries the recovered start number");
   VF_ASSERT(vf_sess_next_send(SESS) == n0 + 1, "C16: and the next one follows it");
-  VF_ASSERT(c_valid && c_snd == n0 + 1 && c_rcv == r0, "C16: control record equals the session's numbers after the first send");
+  VF_ASSERT(ctl_matches(n0 + 1, r0), "C16: control record equals the session's numbers after the first send");
   VF_ASSERT(p_n == 0, "C16: the administrative message is not stored");
   /* end of process(): ++_next_receive_seq; update_persist_seqnums() */
-  vf_sess_set_seq(SESS, n0 + 1, r0 + 1);
+  vf_sess_set_seq(SESS, n0 + 1, r0 + 1); c_att_n = 0;
   vf_sb_update_persist(&the_sess);
   VF_ASSERT(!__vf_exc_pending, "C16: update does not throw"); __vf_exc_pending = 0;
-  VF_ASSERT(c_snd == vf_sess_next_send(SESS) && c_rcv == vf_sess_next_recv(SESS) && c_rcv == r0 + 1, "C16: control record equals the session's numbers after a processed inbound message");
+  VF_ASSERT(c_att_n == 1 && vf_sess_next_recv(SESS) == r0 + 1 && ctl_matches(vf_sess_next_send(SESS), vf_sess_next_recv(SESS)), "C16: control record equals the session's numbers after a processed inbound message");
   VF_ASSERT(!vf_spin_bad, "C16: lock discipline");
   VF_REACH();
   return 0;
